@@ -2,7 +2,7 @@ SPECIFICATION Spec
 CONSTANTS
   Reqs = {1, 2, 3}
   MaxSock = 2
-  MaxEv = 1
+  MaxEv = 0
   MaxUnsol = 0
   Limit = 1
   Timed = FALSE
